@@ -40,6 +40,10 @@ type CrashCase struct {
 	SamplePct int        `json:"sample_pct"` // share of hook occurrences at which a crash image is taken
 	Torn      bool       `json:"torn"`
 	Queries   []IdxQuery `json:"queries"`
+	// SmallTxn opens BadgerDB with 4 KiB tables, which limits a transaction
+	// to five entries: RebuildIndexes on more than two values is refused
+	// with ErrTxnTooBig (and must then not claim success)
+	SmallTxn bool `json:"small_txn,omitempty"`
 }
 
 // CrashScenario: acknowledged store writes survive a crash; Init seeds once;
@@ -91,6 +95,7 @@ func (CrashScenario) GenCase(r *rand.Rand, prop string) interface{} {
 		at := r.IntN(len(c.Ops) + 1)
 		c.Ops = append(c.Ops[:at:at], append([]CrashOp{{Kind: "init"}}, c.Ops[at:]...)...)
 	}
+	c.SmallTxn = chance(r, 15)
 	for i := 0; i < 3; i++ {
 		c.Queries = append(c.Queries, genIdxQuery(r))
 	}
@@ -152,6 +157,7 @@ type crashRun struct {
 	evals   int
 	occ     int
 	safeOff int64
+	refused int // RebuildIndexes calls refused with ErrTxnTooBig
 	gen     int
 }
 
@@ -212,10 +218,39 @@ func vlogWriteOffset(dir string) (string, int64) {
 
 func (cr *crashRun) open(dir string) {
 	cr.dir = dir
-	cr.db = openBadger(dir)
+	cr.db = cr.openDB(dir)
 	cr.st = badgerstore.NewStore(cr.db).SetPrefix(cr.c.Prefix).SetType(idxRec{})
 	cr.qs = newIdxQueryStore(cr.st)
 	cr.gen++
+}
+
+func (cr *crashRun) opts(dir string) badger.Options {
+	o := badgerOpts(dir)
+	if cr.c.SmallTxn {
+		// no compaction runs while the clock stands still: do not stall on
+		// level zero tables
+		o = o.WithMaxTableSize(4 << 10).WithNumLevelZeroTables(1000).WithNumLevelZeroTablesStall(2000)
+	}
+	return o
+}
+
+func (cr *crashRun) openDB(dir string) *badger.DB {
+	db, err := badger.Open(cr.opts(dir))
+	if err != nil {
+		panic(fmt.Sprintf("badger open: %v", err))
+	}
+	return db
+}
+
+// rebuildRefused reports whether RebuildIndexes failed because BadgerDB
+// refused the transaction as too big: a legitimate failure (nothing is
+// claimed about the indexes then), counted as a fault.
+func (cr *crashRun) rebuildRefused(err error) bool {
+	if err != nil && errors.Is(err, badger.ErrTxnTooBig) {
+		cr.refused++
+		return true
+	}
+	return false
 }
 
 func (cr *crashRun) seedsCB(add func(id string, v interface{})) error {
@@ -316,7 +351,7 @@ func (CrashScenario) Execute(sim *sched.Sim, ci interface{}, prop string, race b
 				_, cr.safeOff = vlogWriteOffset(cr.dir)
 			case "rebuild":
 				cr.qs.Flush()
-				if err := cr.qs.RebuildIndexes(); err != nil {
+				if err := cr.qs.RebuildIndexes(); err != nil && !cr.rebuildRefused(err) {
 					h.Violate("C12", "rebuild-error", rebuildSig(err), fmt.Sprintf("RebuildIndexes on the live store (prefix %q) failed: %v", c.Prefix, err))
 				}
 			case "flush":
@@ -349,14 +384,18 @@ func (CrashScenario) Execute(sim *sched.Sim, ci interface{}, prop string, race b
 			// index updates of the seeds run on the queue's own goroutine,
 			// which the simulator does not schedule during a restart
 			cr.qs.Flush()
+			rebuilt := true
 			if err := cr.qs.RebuildIndexes(); err != nil {
-				h.Violate("C12", "rebuild-error", rebuildSig(err), fmt.Sprintf("RebuildIndexes after restart (prefix %q) failed: %v", c.Prefix, err))
+				rebuilt = false
+				if !cr.rebuildRefused(err) {
+					h.Violate("C12", "rebuild-error", rebuildSig(err), fmt.Sprintf("RebuildIndexes after restart (prefix %q) failed: %v", c.Prefix, err))
+				}
 			}
 			cr.qs.Flush()
 			cr.sim.PassThrough.Store(false)
 			// what the restart procedure wrote (seeds, marker) is acknowledged
 			_, cr.safeOff = vlogWriteOffset(cr.dir)
-			cr.checkLive("after dirty restart")
+			cr.checkLive("after dirty restart", rebuilt)
 		}
 		// crash image at the instrumented point the system is parked at
 		for _, t := range sim.Parked() {
@@ -386,7 +425,7 @@ func (CrashScenario) Execute(sim *sched.Sim, ci interface{}, prop string, race b
 	for _, p := range sim.Panics {
 		h.Violate("C12", "panic", panicSignature(p), p)
 	}
-	out := &Outcome{Faults: map[string]int{"crash-image": cr.images, "torn-tail-image": cr.torn, "dirty-restart": cr.gen - 1, "commit-error": commitErrs}, Evals: cr.evals}
+	out := &Outcome{Faults: map[string]int{"crash-image": cr.images, "torn-tail-image": cr.torn, "dirty-restart": cr.gen - 1, "commit-error": commitErrs, "rebuild-refused-txn-too-big": cr.refused}, Evals: cr.evals}
 	out.Sample = map[string]interface{}{"prefix": c.Prefix, "ops": len(c.Ops), "seeds": len(c.Seeds), "hook_occurrences": cr.occ, "images": cr.images, "torn": cr.torn, "generations": cr.gen}
 	for _, v := range h.Viol {
 		if prop == "" || v.Property == prop {
@@ -486,7 +525,7 @@ func (cr *crashRun) image(root, where string, torn bool) {
 		os.WriteFile(p, b, 0o644)
 		where += fmt.Sprintf(" torn at %d of [%d,%d]", cut, cr.safeOff, cur)
 	}
-	db, err := badger.Open(badgerOpts(img))
+	db, err := badger.Open(cr.opts(img))
 	if err != nil {
 		cr.h.Violate("C12", "reopen-failed", "", fmt.Sprintf("crash image at %s cannot be opened: %v", where, err))
 		return
@@ -562,6 +601,9 @@ func (cr *crashRun) image(root, where string, torn bool) {
 	}
 	qs.Flush()
 	if err := qs.RebuildIndexes(); err != nil {
+		if cr.rebuildRefused(err) {
+			return
+		}
 		cr.h.Violate("C12", "rebuild-error", rebuildSig(err), fmt.Sprintf("RebuildIndexes on the crash image (prefix %q) failed: %v; %s", cr.c.Prefix, err, desc()))
 		return
 	}
@@ -589,13 +631,16 @@ func flightStr(f *flight) string {
 
 // checkLive compares the live store with the acked model at a quiescent
 // instant.
-func (cr *crashRun) checkLive(where string) {
+func (cr *crashRun) checkLive(where string, indexes bool) {
 	stored := cr.readAll(cr.st)
 	for _, id := range crashIDs {
 		cr.evals++
 		if !sameRec(stored[id], cr.acked[id]) {
 			cr.h.Violate("C12", "acked-write-lost", "live", fmt.Sprintf("%s: id %q holds %s, expected %s", where, id, recStr(stored[id]), recStr(cr.acked[id])))
 		}
+	}
+	if !indexes {
+		return
 	}
 	for _, q := range []IdxQuery{{Index: "k", Limit: -1}, {Index: "n", Limit: -1}} {
 		r, err := cr.qs.Query(q.values())
